@@ -1,7 +1,7 @@
 (* gen/SrcVecCmplx.v -- REGENERATED from the Rust source by driver/translate_src.py (rust2coq) on every check run.
    One definition s_<f> per translated function, in the state-passing style of the hand-written models. *)
 From Coq Require Import List Arith ZArith Lia Bool.
-From OV Require Import Base.Panic Base.Arith Model.Complex Model.Vector Model.Newton gen.SrcPrelude.
+From OV Require Import Base.Panic Base.Arith Model.Complex Model.Vector Model.Matrix Model.Tridiag Model.Newton gen.SrcPrelude.
 Import ListNotations.
 
 Section SrcVecCmplx.
@@ -36,5 +36,13 @@ Definition s_cnorm_inf (self_ : (list (T CA))) : res (T A) :=
            let result_ := (sqrt (abs_sqr x3)) in
            Ok result_)
       else (Ok result_)) result_.
+
+(* src/tridiagonal.rs : impl < T : Clone + Signed > Tridiagonal :: < Complex :: < T > > :: fn conj *)
+Definition s_tconj (self_ : (tridiag CA)) : res (tridiag CA) :=
+  let sub_ := ((vconj (tsub self_) : list (T CA))) in
+  let main_ := ((vconj (tmain self_) : list (T CA))) in
+  let sup_ := ((vconj (tsup self_) : list (T CA))) in
+  let n_ := (tn self_) in
+  Ok (@mkT CA sub_ main_ sup_ n_).
 
 End SrcVecCmplx.
